@@ -51,8 +51,19 @@ fn dispatch(cmd: &str, args: &[&str]) -> String {
 fn main() {
     panic::set_hook(Box::new(|_| {}));
     let stdin = std::io::stdin();
-    let stdout = std::io::stdout();
-    let mut out = std::io::BufWriter::new(stdout.lock());
+    // portus prints diagnostics with println! (lang::compile on a failed override): keep them out of
+    // the answer stream by answering on a private duplicate of fd 1 and pointing fd 1 at /dev/null.
+    let out_file = unsafe {
+        use std::os::unix::io::FromRawFd;
+        let fd = libc::dup(1);
+        let null = libc::open(b"/dev/null\0".as_ptr() as *const libc::c_char, libc::O_WRONLY);
+        if null >= 0 {
+            libc::dup2(null, 1);
+            libc::close(null);
+        }
+        std::fs::File::from_raw_fd(fd)
+    };
+    let mut out = std::io::BufWriter::new(out_file);
     for line in stdin.lock().lines() {
         let line = match line {
             Ok(l) => l,
